@@ -437,8 +437,9 @@ func (ega *EnhancedGroupAggregator) AddPostAggregationExpression(outputField, or
 			}
 		}
 
-		// Check if input field is an expression (contains function calls)
-		isInputExpression := strings.Contains(field.InputField, "(") && strings.Contains(field.InputField, ")")
+		// Check if input field is an expression (function call, parenthesised or arithmetic
+		// over columns such as "a + 1") rather than a plain column reference
+		isInputExpression := isExpressionInput(field.InputField)
 
 		// If input expression itself contains aggregation calls, skip creating an aggregator for this field
 		// Use dynamic function registry instead of hardcoded list
@@ -598,6 +599,34 @@ func (ega *EnhancedGroupAggregator) AddPostAggregationExpression(outputField, or
 	ega.postProcessor.AddExpression(outputField, originalExpr, requiredFieldNames, adjustedTemplate)
 
 	return nil
+}
+
+// isExpressionInput reports whether an aggregate's argument text has to be evaluated per row
+// (it contains a call, parentheses or an arithmetic operator outside quotes/backticks) instead of
+// being looked up as a column. The bare "*" of COUNT(*) is not an expression.
+func isExpressionInput(input string) bool {
+	trimmed := strings.TrimSpace(input)
+	if trimmed == "" || trimmed == "*" {
+		return false
+	}
+	if strings.Contains(trimmed, "(") && strings.Contains(trimmed, ")") {
+		return true
+	}
+	quote := byte(0)
+	for i := 0; i < len(trimmed); i++ {
+		c := trimmed[i]
+		switch {
+		case quote != 0:
+			if c == quote {
+				quote = 0
+			}
+		case c == '\'' || c == '"' || c == '`':
+			quote = c
+		case c == '+' || c == '-' || c == '*' || c == '/' || c == '%':
+			return true
+		}
+	}
+	return false
 }
 
 // GetResults returns results with post-aggregation expressions evaluated
